@@ -82,12 +82,18 @@ class MRes:
         self.serial, self.generated, self.types, self.name, self.desc = serial, generated, types, name, desc
 
 
-class MFac:
-    __slots__ = ("fid", "types", "name", "is_async", "cps", "desc", "optional_annot")
+class FactoryErr(Exception):
+    """Raised by a generated factory on its first call for a context (fail_first)."""
 
-    def __init__(self, fid: int, types: tuple, name: str, is_async: bool, cps: int, desc: Any, optional_annot: bool) -> None:
+
+class MFac:
+    __slots__ = ("fid", "types", "name", "is_async", "cps", "desc", "optional_annot", "fail_first")
+
+    def __init__(self, fid: int, types: tuple, name: str, is_async: bool, cps: int, desc: Any, optional_annot: bool,
+                 fail_first: bool = False) -> None:
         self.fid, self.types, self.name, self.is_async, self.cps, self.desc = fid, types, name, is_async, cps, desc
         self.optional_annot = optional_annot
+        self.fail_first = fail_first
 
 
 class MCtx:
@@ -174,7 +180,7 @@ class Model:
     def addf_apply(self, ctx: int, op: dict) -> None:
         c = self.ctxs[ctx]
         f = MFac(op["fid"], tuple(op["types"]), op["name"], op["async"], op.get("cps", 0), op.get("desc"),
-                 op["mode"] == "annot_optional")
+                 op["mode"] == "annot_optional", bool(op.get("fail_first")))
         self.facs[f.fid] = f
         for t in f.types:
             c.fac[(t, f.name)] = f.fid
@@ -245,6 +251,7 @@ class _Gen:
         self.max_ctx = 8 if tier == "quick" else 10
         self.max_depth = 4
         self.optional_annot_names: set[str] = set()
+        self.failed_once: set[tuple[int, int]] = set()
 
     def depth(self, idx: int) -> int:
         n, c = 0, self.m.ctxs[idx]
@@ -378,6 +385,8 @@ class _Gen:
             op["name"] = d.pick(INVALID_NAMES)
         op["async"] = d.pct(45)
         op["cps"] = d.int(0, 2) if op["async"] else 0
+        if d.pct(14 if self.prop == "C04" else 6):
+            op["fail_first"] = True  # the first call for every context raises (after its checkpoints)
         if d.pct(25):
             op["desc"] = f"f{fid}"
         op["via"] = "module" if (ctx == task.top() and d.pct(40)) else "method"
@@ -415,7 +424,10 @@ class _Gen:
         # offline model step (sequential approximation; only steers generation)
         exp = self.m.lookup(ctx, key[0], key[1], api, optional)
         if exp[0] == "gen":
-            self.m.gen_complete(ctx, exp[1], ("g", exp[1], ctx))
+            if self.m.facs[exp[1]].fail_first and (ctx, exp[1]) not in self.failed_once:
+                self.failed_once.add((ctx, exp[1]))
+            else:
+                self.m.gen_complete(ctx, exp[1], ("g", exp[1], ctx))
         return op
 
     def op_par(self, task: _GTask) -> dict | None:
@@ -544,6 +556,7 @@ class Interp:
         self.keep: list[Any] = []  # keep every object alive so ids stay unique
         self.gen_serials: set[Any] = set()
         self.fcalls: dict[tuple[int, int], int] = {}  # (ctx, fid) -> factory call count
+        self.fproduced: dict[tuple[int, int], list] = {}  # (ctx, fid) -> serials of produced objects
         self.fac_cb: dict[int, Any] = {}
         self.streams: dict[int, Any] = {}  # ctx -> (cm, iterator)
         self.td_marks: dict[int, list[Any]] = {}  # ctx -> teardown markers observed
@@ -589,15 +602,22 @@ class Interp:
         cls = VCLS[types[0]] if types and types[0] < 4 else A
         interp = self
 
-        def produce() -> Any:
+        fail_first = bool(op.get("fail_first"))
+
+        def begin() -> tuple:
+            """Called when the factory body starts running; decides whether this call fails."""
             info = _lookup_var.get()
             ctx = info["ctx"] if info else -1
             n = interp.fcalls.get((ctx, fid), 0)
             interp.fcalls[(ctx, fid)] = n + 1
+            return info, ctx, n, (fail_first and n == 0)
+
+        def produce(info: Any, ctx: int, n: int) -> Any:
             serial = ("g", fid, ctx, n)
             obj = cls(serial)
             interp.reg(serial, obj)
             interp.gen_serials.add(serial)
+            interp.fproduced.setdefault((ctx, fid), []).append(serial)
             if info is not None:
                 info["produced"].append(serial)
             return obj
@@ -606,13 +626,24 @@ class Interp:
             cps = op.get("cps", 0)
 
             async def cb() -> Any:
-                obj = produce()
+                info, ctx, n, fails = begin()
+                if fails:
+                    await checkpoints(cps)
+                    if info is not None:
+                        info["failed"] = True
+                    raise FactoryErr(f"f{fid} call {n} for context #{ctx}")
+                obj = produce(info, ctx, n)
                 await checkpoints(cps)
                 return obj
         else:
 
             def cb() -> Any:  # type: ignore[misc]
-                return produce()
+                info, ctx, n, fails = begin()
+                if fails:
+                    if info is not None:
+                        info["failed"] = True
+                    raise FactoryErr(f"f{fid} call {n} for context #{ctx}")
+                return produce(info, ctx, n)
 
         mode = op["mode"]
         tt = [TYPES[t] for t in types]
@@ -665,7 +696,8 @@ class Interp:
                         # "raises AsyncResourceError and registers nothing" / failed lookups change nothing
                         classes, b = ["generation"], "failed-lookup-changed-view"
                     elif gen_involved:
-                        classes = ["generation"] + (["visibility"] if where == "other" else [])
+                        # (get_resources is a lookup path too: "all lookup paths agree on this visible set")
+                        classes = ["generation", "visibility"]
                         b = f"generated-view-{where}"
                         # a generated object replacing a previously returned one
                         if any(expected.get(n) is not None and actual.get(n) in self.gen_serials
@@ -1009,7 +1041,7 @@ class Interp:
             self.f_cross_lookup = True
         if any(fid in self.f_child_after_gen.get(ctx, ()) for fid in [c.fac.get((tid, name))] if fid is not None):
             self.f_child_lookup = True
-        info = {"ctx": ctx, "produced": []}
+        info = {"ctx": ctx, "produced": [], "failed": False}
         token = _lookup_var.set(info)
         pending_fid = None
         if exp[0] == "gen":
@@ -1061,17 +1093,24 @@ class Interp:
         if exp[0] == "gen":
             fid = exp[1]
             c.pending[fid] -= 1
-            if c.generated.get(fid) is None:
+            if isinstance(exc, FactoryErr):
+                # an attempt that failed registers nothing; the next lookup tries again
+                if c.generated.get(fid) is None:
+                    self.labels.add("factory-attempt-failed")
+                    self.n_fail += 0
+                    self.check_views("get", ctx, True, desc + " [factory raised]")
+                    return
+            produced_here = self.fproduced.get((ctx, fid), [])
+            if c.generated.get(fid) is None and produced_here:
                 # first completion decides the context's object
-                first = ("g", fid, ctx, 0)
-                if first in self.objs:
-                    self.m.gen_complete(ctx, fid, first)
-                    self.f_gen_in.add((ctx, fid))
-            calls = self.fcalls.get((ctx, fid), 0)
-            if calls != 1:
-                racing = "racing lookups from concurrent tasks" if calls > 1 else "no call"
-                self.disc(["generation"], "factory-called-%s" % ("twice-race" if calls > 1 else "never"),
-                          f"{desc}: factory f{fid} was called {calls} times for context #{ctx} ({racing})")
+                self.m.gen_complete(ctx, fid, produced_here[0])
+                self.f_gen_in.add((ctx, fid))
+            n_p = len(produced_here)
+            # (zero productions are fine when the pair was taken by another resource meanwhile)
+            if n_p > 1 or (n_p == 0 and c.res.get((tid, name)) is None and exc is None):
+                racing = "racing lookups from concurrent tasks" if n_p > 1 else "no call"
+                self.disc(["generation"], "factory-called-%s" % ("twice-race" if n_p > 1 else "never"),
+                          f"{desc}: factory f{fid} produced {n_p} objects ({self.fcalls.get((ctx, fid), 0)} calls) for context #{ctx} ({racing})")
                 self.diverged = True
                 return
             # the pair resolves to the generated object unless it was taken by another
